@@ -10,14 +10,18 @@
   * `rate8`, `rate16`, `quant`   the divisor quantisers: rate8 = 256 − 1000000 / sr, rate16 = 65536 − 128000000 / sr
                                  (stored in 8 / 16 bits), read back as 1000000 / (256 − rate8) resp.
                                  128000000 / (65536 − rate16); the type 9 block stores the rate itself
-  * `hdr`, `fmt`                 voc_write_header.  Its `calc_length` block counts EVERY byte after the header as
-                                 audio — at close that includes the terminator byte voc_close has just appended
-                                 (`closeSt`), and the type 1 length field is written as datalength + 1, which is the
-                                 length of the block only when the terminator is among those bytes
-                                 (known findings KF-VOC-MONO-G711, KF-VOC-UPDATE)
+  * `hdr`, `fmt`, `closeSt`      voc_write_header and voc_close.  While the handle is open psf->dataend is 0 and the
+                                 `calc_length` block takes every byte after the header for audio (there is no
+                                 terminator yet); voc_close records the end of the audio in psf->dataend, writes the
+                                 terminator there and `calc_length` then stops at it (`closeFields`).  The type 1
+                                 length field is datalength + 2 (rate byte, compression byte, audio), the type 9
+                                 field whole frames + 12.  The rule before the repair of KF-VOC-MONO-G711 /
+                                 KF-VOC-UPDATE (terminator counted as audio at close, type 1 field datalength + 1,
+                                 type 1 / 8 readers insisting on a terminator) is SfModel/VocOld.lean (Sf.Voc.Old).
   * `parse`                      sf_open (SFM_READ): guess_file_type, voc_read_header, the codec init, validate_sfinfo.
-                                 Files that end inside the fields of the block header, and files that start with an
-                                 ASCII or REPEAT block, are not described.
+                                 All three block readers accept a file whose terminator is missing (the image a
+                                 header update leaves).  Files that end inside the fields of the block header, and
+                                 files that start with an ASCII or REPEAT block, are not described.
 -/
 import SfModel.Small2
 namespace Sf.Voc
@@ -64,19 +68,28 @@ def encOf (codec : Nat) : Nat := if codec = 0x11 then 6 else if codec = 0x10 the
 /-- voc_write_header -/
 def hdr (c : Cfg) (f : Fields) : List Byte :=
   if c.codec = 5 then
-    if c.ch = 1 then fileHdr ++ [1] ++ le24 (wrapS 32 (f.datalength + 1)) ++ [rate8 c.sr, 0]
-    else fileHdr ++ [8] ++ le24 4 ++ le16 (rate16 c.sr) ++ [0, 1] ++ [1] ++ le24 (wrapS 32 (f.datalength + 1)) ++ [rate8 c.sr, 0]
+    if c.ch = 1 then fileHdr ++ [1] ++ le24 (wrapS 32 (f.datalength + 2)) ++ [rate8 c.sr, 0]
+    else fileHdr ++ [8] ++ le24 4 ++ le16 (rate16 c.sr) ++ [0, 1] ++ [1] ++ le24 (wrapS 32 (f.datalength + 2)) ++ [rate8 c.sr, 0]
   else
     fileHdr ++ [9] ++ le24 (wrapS 32 (f.frames * c.ch * bytewidth c.codec + 12)) ++ le32 c.sr ++
       [if c.codec = 2 then 16 else 8, c.ch] ++ le16 (encOf c.codec) ++ le32 0
 
-/-- `calc_length`: every byte after the header is audio (psf->dataend is 0 on a write handle) -/
+/-- `calc_length` while the handle is open: every byte after the header is audio (psf->dataend is 0 on a write handle
+    until voc_close sets it) -/
 def fmt (c : Cfg) : Fmt :=
   { hdrLen := c.hdrLen, bw := c.bw, hdr := hdr c,
     recalc := fun n _ => { filelength := n, datalength := (n : Int) - c.hdrLen, frames := ((n : Int) - c.hdrLen) / ((c.bw : Nat) : Int) } }
 
-/-- voc_close: seek to the end, write the terminator byte, then voc_write_header (psf, SF_TRUE) -/
-def closeSt (c : Cfg) (s : St) : St := emit (fmt c) { s with data := s.data ++ [0] } true
+/-- the fields `calc_length` computes at close: psf->dataend (set by voc_close) is the offset of the terminator, the
+    `d` audio bytes in front of it are the data -/
+def closeFields (c : Cfg) (d : Nat) : Fields :=
+  { filelength := ((c.hdrLen + d + 1 : Nat) : Int), datalength := (d : Int), frames := ((d / c.bw : Nat) : Int) }
+
+/-- voc_close: psf->dataend = the end of the audio (dataoffset + frames * bytewidth * channels = the end of the store
+    of a write handle), the terminator byte there, then voc_write_header (psf, SF_TRUE) -/
+def closeSt (c : Cfg) (s : St) : St :=
+  let f := closeFields c s.data.length
+  { hdr := hdr c f, data := s.data ++ [0], f := f }
 
 def closedBytes (c : Cfg) (stale : Nat) (ops : List WOp) : List Byte := (closeSt c (run (fmt c) (openW (fmt c) stale) ops)).bytes
 def snapshotBytes (c : Cfg) (stale : Nat) (ops : List WOp) : List Byte := Small2.snapshotBytes (fmt c) stale ops
@@ -102,7 +115,8 @@ def readBlock (bs : List Byte) : Blk :=
     if bs.length < 32 then .unmodelled else
     let size : Int := leAt bs 27 3
     let sr : Int := unrate8 (byteAt bs 30)
-    if 32 + size - 1 > flen then .err                        -- SFE_VOC_BAD_SECTIONS ("truncated")
+    if 32 + size - 2 = flen then .ok 1 5 1 sr 32 0           -- "Missing zero byte at end of file"
+    else if 32 + size - 1 > flen then .err                   -- SFE_VOC_BAD_SECTIONS ("truncated")
     else if flen - 32 - size > 4 then .err                   -- "multi-segment (#1)"
     else .ok 1 5 1 sr 32 (flen - 1)
   else if ty = 8 then
@@ -111,7 +125,8 @@ def readBlock (bs : List Byte) : Blk :=
     let sr : Int := unrate16 stereo (leAt bs 30 2)
     if byteAt bs 34 ≠ 1 then .err else                       -- SFE_VOC_BAD_FORMAT
     let size : Int := leAt bs 35 3
-    if 40 + size - 1 > flen then .err
+    if 40 + size - 2 = flen then .ok (if stereo then 2 else 1) 5 1 sr 40 0      -- "Missing zero byte at end of file"
+    else if 40 + size - 1 > flen then .err
     else if 40 + size - 1 < flen then .err                   -- "multi-segment (#2)"
     else .ok (if stereo then 2 else 1) 5 1 sr 40 (flen - 1)
   else if ty = 9 then
